@@ -115,8 +115,6 @@ theorem inCls_uniform {rs : Ranges} {lo hi c : Nat}
   obtain ⟨v, hv⟩ := Option.isSome_iff_exists.mp h
   rw [clsI_sound hv h1 h2, clsI_sound hv (Nat.le_refl _) (Nat.le_trans h1 h2)]
 
-theorem nullable_deriv_indep : True := trivial
-
 theorem deriv_uniform {r : RE} {lo hi c : Nat}
     (h : uniformRE lo hi r = true) (h1 : lo ≤ c) (h2 : c ≤ hi) : deriv c r = deriv lo r := by
   induction r with
